@@ -422,6 +422,108 @@ def judge_roundtrip(c, r):
     return None
 
 
+# ------------------------------------------------------------------ load(): the dispatch matrix (shared with C19)
+LOAD_FORMS = [{"t": "int", "v": 0}, {"t": "int", "v": 3}, {"t": "str", "v": "gzip"}, {"t": "str", "v": "bz2"},
+              {"t": "str", "v": "lzma"}, {"t": "str", "v": "xz"}]
+SRC_COQ = {"path": "SPath", "pathlib": "SPath", "rawfile": "SRawFile", "bytesio": "SBytesIO", "other": "SOtherObj"}
+NA_COQ = {"auto": "NAuto", "True": "NTrue", "False": "NFalse"}
+LOAD_DEFS = """Definition warn_code (w : warn) : Z := match w with WNone => 0 | WBytesIO => 1 | WCompressed => 2 | WNotRaw => 3 end.
+Definition show_plan (r : result load_plan) : Z * bool * bool * Z :=
+  match r with
+  | Raise ValueError => (1, false, false, 0) | Raise _ => (2, false, false, 0)
+  | Ok p => (0, lp_mmap p, lp_native p, warn_code (lp_warn p))
+  end."""
+WARN_NAMES = {0: [], 1: ["bytesio"], 2: ["compressed"], 3: ["notraw"]}
+
+
+def load_documented(src, mm, na, codec):
+    """joblib.load's documentation, independent of the model: outcome for one combination"""
+    native = (mm is None) if na == "auto" else bool(na)
+    if native and mm is not None:
+        return {"raise": "ValueError"}
+    warn = []
+    if mm is not None:
+        if codec != "plain":
+            warn = ["compressed"]          # "This mode has no effect for compressed files"
+        elif src == "bytesio":
+            warn = ["bytesio"]
+        elif src == "other":
+            warn = ["notraw"]
+    return {"warn": warn, "memmap": mm is not None and codec == "plain" and src in ("path", "pathlib"), "native": native}
+
+
+def load_matrix_check(ctx, mat_cases, mat_res, k, payload_kind):
+    """returns (oracle failures, disagreements, n_model) for loadmatrix results"""
+    fails, dis = [], []
+    exprs, meta = [], []
+    for c, r in zip(mat_cases, mat_res):
+        if "harness_error" in r:
+            raise RuntimeError("loadmatrix failed: " + r["harness_error"] + r.get("tb", ""))
+        exp_codec = documented(c["form"] if isinstance(c["form"], dict) else form_of(c["form"]), {"k": "path", "name": "f.bin"}, k)
+        codec = "plain" if exp_codec[0] == "plain" else exp_codec[0]
+        for x in r["res"]:
+            doc = load_documented(x["src"], x["mmap"], x["native"], codec)
+            what = None
+            if "raise" in doc or "raise" in x:
+                if doc.get("raise") != x.get("raise"):
+                    what = "load should %s, it %s" % ("raise " + doc["raise"] if "raise" in doc else "succeed",
+                                                      "raised " + x["raise"] if "raise" in x else "succeeded")
+            else:
+                if not x.get("ok"):
+                    what = "load gave another value back"
+                elif x.get("warn") != doc["warn"]:
+                    what = "warnings %s, documented %s" % (x.get("warn"), doc["warn"])
+                elif payload_kind == "array" and x.get("memmap") != doc["memmap"]:
+                    what = "memory-mapped: %s, documented %s" % (x.get("memmap"), doc["memmap"])
+                elif payload_kind == "array" and not doc["memmap"] and x.get("native_applied") != doc["native"]:
+                    what = "byte order coerced: %s, documented %s" % (x.get("native_applied"), doc["native"])
+                elif payload_kind == "object" and x.get("memmap"):
+                    what = "an object array came back memory-mapped"
+            if what:
+                fails.append(("load(%s, mmap_mode=%r, ensure_native_byte_order=%r) of a %s file: %s"
+                              % (x["src"], x["mmap"], x["native"], codec, what),
+                              dict(c, only={"src": x["src"], "mmap": x["mmap"], "native": x["native"]}), x))
+            kind = "KPlain" if codec == "plain" else "(KCodec %s)" % zstr(codec)
+            exprs.append("show_plan (load_decide %s %s %s %s)" % (SRC_COQ[x["src"]], "true" if x["mmap"] is not None else "false",
+                                                                NA_COQ[str(x["native"])], kind))
+            meta.append((c, x))
+    uniq = sorted(set(exprs))
+    vals = dict(zip(uniq, ctx.coq_eval_lines(REQ, LOAD_DEFS, uniq, name="load_matrix_" + payload_kind, shard=200)))
+    for e, (c, x) in zip(exprs, meta):
+        tag, mmap, native, w = parse_coq(vals[e])
+        if tag != 0:
+            m = {"raise": "ValueError" if tag == 1 else "other"}
+            i = {"raise": x.get("raise")}
+        else:
+            m = {"warn": WARN_NAMES[w]}
+            i = {"warn": x.get("warn")}
+            if payload_kind == "array":
+                m["memmap"] = mmap
+                i["memmap"] = x.get("memmap")
+                if not mmap:
+                    m["native"] = native
+                    i["native"] = x.get("native_applied")
+            i["raise"] = x.get("raise")
+            m["raise"] = None
+        if m != i:
+            dis.append({"function": "load dispatch (load_decide)", "case": dict(c, only=x), "model": m, "impl": i})
+    return fails, dis, len(uniq)
+
+
+def form_of(f):
+    if isinstance(f, dict):
+        return f
+    if f is True:
+        return {"t": "true"}
+    if f is False or f is None:
+        return {"t": "false"} if f is False else {"t": "none"}
+    if isinstance(f, int):
+        return {"t": "int", "v": f}
+    if isinstance(f, str):
+        return {"t": "str", "v": f}
+    return {"t": "tuple", "v": list(f)}
+
+
 def lz4_cases():
     """lz4 is not installed: every way of asking for it must raise ValueError"""
     return [{"mode": "resolve", "form": f, "target": t} for f, t in [
@@ -530,6 +632,15 @@ def run(ctx):
                     oracle_fail.append(("a stream starting with the %s magic is detected as %s"
                                         % (e["name"], dres[0]["res"][i][0]),
                                         {"mode": "detect", "peekable": True, "heads": [{"hex": h.hex()}]}, dres[0]["res"][i]))
+    # 3b. load(): the dispatch matrix (5 source kinds x 5 mmap modes x 3 ensure_native values x 6 compress forms)
+    mat = [{"mode": "loadmatrix", "form": f} for f in LOAD_FORMS]
+    mat_res = run_impl_cases(mat)
+    if os.path.exists(os.path.join(common.COQ, "Model", "Persist.vo")):
+        lf, ld, ln = load_matrix_check(ctx, mat, mat_res, k, "plain")
+        for what, c, x in lf:
+            oracle_fail.append((what, c, x))
+        disagreements.extend(ld)
+        n_model += ln
     # 4. differential round trip of object graphs
     n_rt = 260 if quick else 3000
     n_car = 30 if quick else 300
@@ -599,7 +710,8 @@ def run(ctx):
                            "correspondence": "Model/Persist.v resolve/detect vs numpy_pickle.dump / _detect_compressor"},
                           found_input=False)
     ctx.finish({
-        "evaluations": len(rcases) + len(rt) + 2 * 65536,
+        "evaluations": len(rcases) + len(rt) + 2 * 65536 + 75 * len(mat),
+        "load_dispatch_combinations": 75 * len(mat),
         "distinct_nontrivial": len(nontrivial),
         "rule": "resolve: ALL compress forms (bool, None, ints -1..10 and 100, every registered name and unknown ones, "
                 "(name, level) for every name x {None, True, False, -1, 0, 1, 3, 9, 10}, tuples of length 0/1/3) x ALL "
@@ -648,6 +760,12 @@ def replay(ctx, path):
         bad = judge_resolve(c, r, k)
     elif c["mode"] == "roundtrip":
         bad = judge_roundtrip(c, r)
+    elif c["mode"] == "loadmatrix":
+        fails, _, _ = load_matrix_check(ctx, [c], [r], k, "plain")
+        only = c.get("only")
+        fails = [f for f in fails if not only or all(f[2].get(kk) == vv for kk, vv in only.items())]
+        bad = fails[0][0] if fails else None
+        r = {"n": len(r["res"])}
     elif c["mode"] == "detect":
         bad = None
         for h, (name, _) in zip(c["heads"], r["res"]):
